@@ -92,15 +92,34 @@ namespace rpc {
             }
 
             int ret2 = args.do_issue(&args);
-            if (ret2 < 0) {
+            ERRNO err;
+            bool taken;
+            {
                 SCOPED_LOCK(m_mutex_map);
-                m_map.erase(args.tag);
-                m_cond_collected.notify_one();
+                taken = (m_map.find(args.tag) == m_map.end());
+                if (ret2 < 0 && !taken) {
+                    m_map.erase(args.tag);
+                    m_cond_collected.notify_one();
+                }
+            }
+            if (taken) {
+                // A response carrying this tag arrived while the request was
+                // still being sent (the peer answered early), and the reader
+                // has taken this context out of the map to collect into our
+                // buffers. We must not return, and let the caller release
+                // them, before it marks the context COLLECTED and wakes us up.
+                SCOPED_LOCK(args.phaselock);
+                while (args.phase != OooPhase::COLLECTED)
+                    m_wait.wait(args.phaselock);
+            }
+            if (ret2 < 0) {
+                errno = err.no;
                 LOG_ERROR_RETURN(0, -1, "failed to do_issue()");
             }
             {
                 SCOPED_LOCK(args.phaselock);
-                args.phase = OooPhase::ISSUED;
+                if (args.phase == OooPhase::BEFORE_ISSUE)
+                    args.phase = OooPhase::ISSUED;
             }
             return 0;
         }
